@@ -97,12 +97,23 @@ class Gen:
         return str(self.r.randint(0, 3))
 
     def lit_str(self):
+        """a Java string literal; the escapes sit anywhere, also at the very start and the very end"""
         body = self.word()
         extra = self.r.choice(["", " x", "\\\"q\\\"", "\\\\", " in ", "a,b", "(", "WHERE x SELECT"])
+        uniq = ""
         if self.o.unique:
             self.counter += 1
-            extra += str(self.counter)
-        return '"' + body + extra + '"'
+            uniq = str(self.counter)
+        k = self.r.random()
+        if k < 0.15:
+            return '"' + uniq + body + extra + '\\"' + '"'          # ends with an escaped quote
+        if k < 0.25:
+            return '"' + '\\"' + body + extra + uniq + '"'          # starts with an escaped quote
+        if k < 0.32:
+            return '"' + uniq + body + '\\\\' + '"'               # ends with an escaped backslash
+        if k < 0.36 and not self.o.unique:
+            return self.r.choice(['"\\""', '""', '"\\\\"', '"\\"\\""'])
+        return '"' + body + extra + uniq + '"'
 
     def build_expr(self, depth, ty):
         """Returns an expression tree: ('lit', text) | ('id', name) | ('bin', op, l, r, paren) |
@@ -462,10 +473,10 @@ class Gen:
         pool.append(("author", self.word()))
         pool.append(("version", "%d.%d" % (r.randint(0, 9), r.randint(0, 9))))
         pool.append(("since", "%d" % r.randint(1, 21)))
-        pool.append(("see", self.word().capitalize()))
+        pool.append(("see", r.choice([self.word().capitalize(), "https://example.com/docs/", "java.util.*", "Other#method(int, String)", "<a href=\"x\">y</a>"])))
         if for_method:
             for p in params:
-                pool.append(("param", p + " the " + self.word()))
+                pool.append(("param", p + " the " + r.choice([self.word(), "path relative to /", "glob like *.java or **", "value (may be null).", "a  b"])))
             for t in throws:
                 pool.append(("throws", t + " when " + self.word()))
             pool.append(("return", "the " + self.word()))
